@@ -2,7 +2,7 @@
 """Behaviour-preserving whole-repository rewrites, to look for false alarms.
 
 usage: tools/benign_stress.py <transform> [Cxx ...]
-  transforms: unparse | pass | flip_if | aug | swap_cmp | demorgan | all
+  transforms: unparse | pass | flip_if | aug | swap_cmp | demorgan | rename | all
 
 A scratch copy of /repo (without .git) is rewritten under $TMPDIR, every check is run against it
 (SA_REPO), and any VIOLATION / ANALYSIS-ERROR is printed.  The scratch copy is removed afterwards.
@@ -84,7 +84,52 @@ class DeMorgan(ast.NodeTransformer):
         return node
 
 
-TRANSFORMS = {'unparse': None, 'pass': Pass, 'flip_if': FlipIf, 'aug': Aug, 'swap_cmp': SwapCmp, 'demorgan': DeMorgan}
+class RenameLocals(ast.NodeTransformer):
+    """every local variable of every top-level function / method gets a new name (parameters, globals,
+    nonlocals, attributes and keyword names untouched)"""
+
+    def _f(self, node):
+        # only outermost functions: nested ones share their enclosing function's renaming
+        params = set()
+        assigned = set()
+        blocked = set()
+        for n in ast.walk(node):
+            if isinstance(n, (ast.FunctionDef, ast.AsyncFunctionDef, ast.Lambda)):
+                a = n.args
+                for x in a.posonlyargs + a.args + a.kwonlyargs + ([a.vararg] if a.vararg else []) + ([a.kwarg] if a.kwarg else []):
+                    params.add(x.arg)
+                if n is not node and not isinstance(n, ast.Lambda):
+                    blocked.add(n.name)
+            elif isinstance(n, (ast.Global, ast.Nonlocal)):
+                blocked |= set(n.names)
+            elif isinstance(n, ast.ClassDef):
+                blocked.add(n.name)
+                for x in ast.walk(n):
+                    if isinstance(x, ast.Name) and isinstance(x.ctx, ast.Store):
+                        blocked.add(x.id)
+            elif isinstance(n, ast.Name) and isinstance(n.ctx, (ast.Store, ast.Del)):
+                assigned.add(n.id)
+            elif isinstance(n, (ast.Import, ast.ImportFrom)):
+                for al in n.names:
+                    blocked.add((al.asname or al.name).split('.')[0])
+            elif isinstance(n, ast.ExceptHandler) and n.name:
+                blocked.add(n.name)
+            elif isinstance(n, ast.MatchAs) and n.name:
+                blocked.add(n.name)
+            elif isinstance(n, ast.MatchStar) and n.name:
+                blocked.add(n.name)
+            elif isinstance(n, ast.MatchMapping) and n.rest:
+                blocked.add(n.rest)
+        ren = {x for x in assigned if x not in params and x not in blocked and not (x.startswith('__') and x.endswith('__'))}
+        for n in ast.walk(node):
+            if isinstance(n, ast.Name) and n.id in ren:
+                n.id = n.id + '_r'
+        return node
+    visit_FunctionDef = _f
+    visit_AsyncFunctionDef = _f
+
+
+TRANSFORMS = {'unparse': None, 'rename': RenameLocals, 'pass': Pass, 'flip_if': FlipIf, 'aug': Aug, 'swap_cmp': SwapCmp, 'demorgan': DeMorgan}
 
 
 def run(name, props):
